@@ -61,11 +61,11 @@ def worker(wid, jobs, args, outf):
                 rec["result"] = "does-not-compile"
             else:
                 rc, o = sh(["go", "vet", pkg], cwd=wt, timeout=900)
-                rc, o = sh(["go", "test", "-vet=off", "-count=1", "-timeout", "20m", pkg], cwd=wt, timeout=1500)
+                rc, o = sh(["go", "test", "-vet=off", "-count=1", "-timeout", "8m", "-skip", "TestSequenceLargeLog|TestCCADBRoots", pkg], cwd=wt, timeout=700)
                 sh(["git", "-C", wt, "checkout", "--", "go.mod", "go.sum"])
                 if rc != 0:
                     rec["result"] = "killed-by-existing-tests"
-                    rec["tests_tail"] = o[-300:]
+                    rec["tests_tail"] = " | ".join(l for l in o.splitlines() if l.startswith(("--- FAIL", "FAIL", "panic")))[:300] or o[-200:]
                 else:
                     rec["result"] = "survives-tests"
                     rec["checks"] = {}
